@@ -11,8 +11,9 @@
  * stdout, one line per case:
  *   <id> T=<n*n 0/1> TN=<n*n 0/1> new=<clusters> bad=<0|1>     (bad: cluster->n / clusterization->n
  *                                                               inconsistent with the lists)
- * Threads are real pthreads here.  In shim mode (libmps built with -DVF_SHIM, linked with
- * harness/vf_sched.c) the same main is used: nothing in this file calls pthread_* directly.
+ * Threads are real pthreads in the plain build.  Built with -DVF_SHIM (libmps mode shim/shimsan,
+ * linked with harness/vf_sched.c) the program runs ONE case under many schedules of the
+ * deterministic scheduler: see the second main at the end of this file.
  */
 #include <mps/mps.h>
 #include <stdio.h>
@@ -103,78 +104,92 @@ set_old (mps_context *s, char *old)
   return nm;
 }
 
-int
-main (void)
+typedef struct {
+  char id[64]; char variant; int n, nf, threads; long prec; char *old;
+} c07_case;
+
+static num X[MAXN], Y[MAXN], G[MAXN], W[MAXN];
+
+/* parse one input line into *c and the global arrays; 1 = ok */
+static int
+parse_case (char *line, c07_case *c)
 {
-  static num X[MAXN], Y[MAXN], G[MAXN], W[MAXN];
+  char *save = NULL, *tokp;
+  int i;
 
-  while (fgets (linebuf, sizeof (linebuf), stdin))
+  tokp = strtok_r (line, " \n", &save);
+  if (!tokp)
+    return 0;
+  strncpy (c->id, tokp, 63); c->id[63] = 0;
+  c->variant = strtok_r (NULL, " \n", &save)[0];
+  c->n = atoi (strtok_r (NULL, " \n", &save));
+  c->nf = atoi (strtok_r (NULL, " \n", &save));
+  c->threads = atoi (strtok_r (NULL, " \n", &save));
+  c->prec = atol (strtok_r (NULL, " \n", &save));
+  c->old = strtok_r (NULL, " \n", &save);
+  if (c->n < 1 || c->n > MAXN - 2)
+    { printf ("%s ERROR bad n\n", c->id); return 0; }
+  for (i = 0; i < c->n; i++)
+    if (!read_num (&save, &X[i]) || !read_num (&save, &Y[i]) ||
+        !read_num (&save, &G[i]) || !read_num (&save, &W[i]))
+      { printf ("%s ERROR short line\n", c->id); return 0; }
+  return 1;
+}
+
+/* what = 1: print the touch matrices only; 2: run the routine and print the clusterization;
+ * 3: both (one line "<id> T= TN= new= bad=") */
+static void
+run_case (const c07_case *c, int what)
+{
+  int n = c->n, nf = c->nf, i, j, bad = 0;
+  char variant = c->variant;
+  char oldbuf[8 * MAXN];
+  mps_context *s = mps_context_new ();
+  mps_monomial_poly *p = mps_monomial_poly_new (s, n);
+
+  mps_monomial_poly_set_coefficient_int (s, p, n, 1, 0);
+  mps_monomial_poly_set_coefficient_int (s, p, 0, -1, 0);
+  mps_context_set_input_poly (s, MPS_POLYNOMIAL (p));
+  mps_allocate_data (s);
+  if (c->threads > 0)
+    mps_thread_pool_set_concurrency_limit (s, s->pool, c->threads);
+  s->mpwp = c->prec;
+  rdpe_set_2dl (s->mp_epsilon, 1.0, 1 - c->prec);
+
+  double *frad = mps_newv (double, n);
+  rdpe_t *drad = rdpe_valloc (n);
+
+  for (i = 0; i < n; i++)
     {
-      char *save = NULL;
-      char *id = strtok_r (linebuf, " \n", &save);
-      char *variant, *old;
-      int n, nf, threads, i, j, bad = 0;
-      long prec;
+      mps_approximation *r = s->root[i];
+      frad[i] = num_d (&G[i]);
+      num_rdpe (drad[i], &G[i]);
+      r->frad = num_d (&W[i]);
+      num_rdpe (r->drad, &W[i]);
+      cplx_set_d (r->fvalue, num_d (&X[i]), num_d (&Y[i]));
+      num_rdpe (cdpe_Re (r->dvalue), &X[i]);
+      num_rdpe (cdpe_Im (r->dvalue), &Y[i]);
+      mpc_set_prec (r->mvalue, c->prec);
+      num_mpf (mpc_Re (r->mvalue), &X[i]);
+      num_mpf (mpc_Im (r->mvalue), &Y[i]);
+    }
+  strncpy (oldbuf, c->old, sizeof (oldbuf) - 1); oldbuf[sizeof (oldbuf) - 1] = 0;
+  set_old (s, oldbuf);
 
-      if (!id)
-        continue;
-      variant = strtok_r (NULL, " \n", &save);
-      n = atoi (strtok_r (NULL, " \n", &save));
-      nf = atoi (strtok_r (NULL, " \n", &save));
-      threads = atoi (strtok_r (NULL, " \n", &save));
-      prec = atol (strtok_r (NULL, " \n", &save));
-      old = strtok_r (NULL, " \n", &save);
-      if (n < 1 || n > MAXN - 2)
-        { printf ("%s ERROR bad n\n", id); continue; }
-      for (i = 0; i < n; i++)
-        if (!read_num (&save, &X[i]) || !read_num (&save, &Y[i]) ||
-            !read_num (&save, &G[i]) || !read_num (&save, &W[i]))
-          { printf ("%s ERROR short line\n", id); n = 0; break; }
-      if (n == 0)
-        continue;
-
-      mps_context *s = mps_context_new ();
-      mps_monomial_poly *p = mps_monomial_poly_new (s, n);
-      mps_monomial_poly_set_coefficient_int (s, p, n, 1, 0);
-      mps_monomial_poly_set_coefficient_int (s, p, 0, -1, 0);
-      mps_context_set_input_poly (s, MPS_POLYNOMIAL (p));
-      mps_allocate_data (s);
-      if (threads > 0)
-        mps_thread_pool_set_concurrency_limit (s, s->pool, threads);
-      s->mpwp = prec;
-      rdpe_set_2dl (s->mp_epsilon, 1.0, 1 - prec);
-
-      double *frad = mps_newv (double, n);
-      rdpe_t *drad = rdpe_valloc (n);
-
-      for (i = 0; i < n; i++)
-        {
-          mps_approximation *r = s->root[i];
-          frad[i] = num_d (&G[i]);
-          num_rdpe (drad[i], &G[i]);
-          r->frad = num_d (&W[i]);
-          num_rdpe (r->drad, &W[i]);
-          cplx_set_d (r->fvalue, num_d (&X[i]), num_d (&Y[i]));
-          num_rdpe (cdpe_Re (r->dvalue), &X[i]);
-          num_rdpe (cdpe_Im (r->dvalue), &Y[i]);
-          mpc_set_prec (r->mvalue, prec);
-          num_mpf (mpc_Re (r->mvalue), &X[i]);
-          num_mpf (mpc_Im (r->mvalue), &Y[i]);
-        }
-      set_old (s, old);
-
+  if (what & 1)
+    {
       /* the implementation's own predicate, before the call (the call may shrink root radii) */
-      printf ("%s T=", id);
+      printf ("%s T=", c->id);
       for (i = 0; i < n; i++)
         for (j = 0; j < n; j++)
           {
-            int t = (variant[0] == 'f') ? mps_ftouchnwt (s, frad, nf, i, j)
-                  : (variant[0] == 'd') ? mps_dtouchnwt (s, drad, nf, i, j)
+            int t = (variant == 'f') ? mps_ftouchnwt (s, frad, nf, i, j)
+                  : (variant == 'd') ? mps_dtouchnwt (s, drad, nf, i, j)
                   : mps_mtouchnwt (s, drad, nf, i, j);
             putchar (t ? '1' : '0');
           }
       printf (" TN=");
-      if (variant[0] == 'f')
+      if (variant == 'f')
         {
           double *nw = mps_newv (double, n);
           for (i = 0; i < n; i++)
@@ -191,20 +206,25 @@ main (void)
             rdpe_set (nw[i], s->root[i]->drad);
           for (i = 0; i < n; i++)
             for (j = 0; j < n; j++)
-              putchar ((variant[0] == 'd' ? mps_dtouchnwt (s, nw, nf, i, j)
+              putchar ((variant == 'd' ? mps_dtouchnwt (s, nw, nf, i, j)
                         : mps_mtouchnwt (s, nw, nf, i, j)) ? '1' : '0');
           rdpe_vfree (nw);
         }
+      if (what == 1)
+        putchar ('\n');
       fflush (stdout);
+    }
 
-      if (variant[0] == 'f')
+  if (what & 2)
+    {
+      if (variant == 'f')
         mps_fcluster (s, frad, nf);
-      else if (variant[0] == 'd')
+      else if (variant == 'd')
         mps_dcluster (s, drad, nf);
       else
         mps_mcluster (s, drad, nf);
 
-      printf (" new=");
+      printf (what == 2 ? "R new=" : " new=");
       {
         mps_cluster_item *item;
         int items = 0;
@@ -231,10 +251,134 @@ main (void)
       }
       printf (" bad=%d\n", bad);
       fflush (stdout);
+    }
 
-      free (frad);
-      rdpe_vfree (drad);
-      mps_context_free (s);
+  free (frad);
+  rdpe_vfree (drad);
+  mps_context_free (s);
+}
+
+#ifndef VF_SHIM
+int
+main (void)
+{
+  while (fgets (linebuf, sizeof (linebuf), stdin))
+    {
+      c07_case c;
+      if (parse_case (linebuf, &c))
+        run_case (&c, 3);
     }
   return 0;
 }
+#else
+/* ---------------------------------------------------------------------------------------------
+ * shim mode: libmps built with -DVF_SHIM, linked with harness/vf_sched.c.  ONE case on stdin;
+ *   c07_cluster_shim [--random N] [--pct N --depth D] [--dfs BOUND [--free-switch] [--max-runs M]]
+ *                    [--replay s0,s1,...] [--seed S]
+ * stdout:  <id> T=.. TN=..                       (computed once, outside the scheduler)
+ *          then for every schedule   R new=<clusterization> bad=<0|1>     (printed by the run)
+ *                                    # run K status S rc R cost C div D what W sched s0,s1,...
+ *          (status != 0: deadlock / step limit / misuse / crash / timeout; the trace follows)    */
+#include "vf_sched.h"
+
+static c07_case the_case;
+
+static int
+scenario (void *arg)
+{
+  (void)arg;
+  run_case (&the_case, 2);
+  return 0;
+}
+
+typedef struct { long runs, bad; } acc;
+
+static int
+on_run (const vf_run *r, void *user)
+{
+  acc *a = (acc *)user;
+  int i;
+
+  a->runs++;
+  if (r->status != 0 || r->rc != 0)
+    a->bad++;
+  printf ("# run %ld status %d rc %d cost %d div %d what %s sched ", a->runs - 1, r->status, r->rc,
+          r->cost, r->diverged, (r->what && r->what[0]) ? r->what : "-");
+  for (i = 0; i < r->n_schedule; i++)
+    printf ("%s%d", i ? "," : "", r->schedule[i]);
+  if (r->n_schedule == 0)
+    printf ("-");
+  printf ("\n");
+  if (r->status != 0)
+    {
+      size_t len = r->trace_len > 6000 ? 6000 : r->trace_len;
+      fwrite (r->trace + (r->trace_len - len), 1, len, stdout);
+      printf ("# end\n");
+    }
+  fflush (stdout);
+  return 0;
+}
+
+int
+main (int argc, char **argv)
+{
+  int i, dfs = -1, free_switch = 0, depth = 3;
+  long nrandom = 0, npct = 0, max_runs = 0, k;
+  unsigned long seed = 1;
+  const char *replay = NULL;
+  acc a = { 0, 0 };
+  vf_opts so;
+  vf_explore_stats st = { 0, 0, 0, 0 };
+  char jobs[16];
+
+  for (i = 1; i < argc; i++)
+    {
+      if (!strcmp (argv[i], "--dfs") && i + 1 < argc) dfs = atoi (argv[++i]);
+      else if (!strcmp (argv[i], "--free-switch")) free_switch = 1;
+      else if (!strcmp (argv[i], "--random") && i + 1 < argc) nrandom = atol (argv[++i]);
+      else if (!strcmp (argv[i], "--pct") && i + 1 < argc) npct = atol (argv[++i]);
+      else if (!strcmp (argv[i], "--depth") && i + 1 < argc) depth = atoi (argv[++i]);
+      else if (!strcmp (argv[i], "--replay") && i + 1 < argc) replay = argv[++i];
+      else if (!strcmp (argv[i], "--seed") && i + 1 < argc) seed = strtoul (argv[++i], NULL, 10);
+      else if (!strcmp (argv[i], "--max-runs") && i + 1 < argc) max_runs = atol (argv[++i]);
+      else { fprintf (stderr, "bad argument %s\n", argv[i]); return 2; }
+    }
+  if (!fgets (linebuf, sizeof (linebuf), stdin) || !parse_case (linebuf, &the_case))
+    return 2;
+  the_case.old = strdup (the_case.old);
+  /* the pool of a new context has MPS_JOBS threads: exactly the requested number */
+  snprintf (jobs, sizeof jobs, "%d", the_case.threads > 0 ? the_case.threads : 1);
+  setenv ("MPS_JOBS", jobs, 1);
+
+  run_case (&the_case, 1);          /* scheduler not initialised: plain pthreads */
+
+  vf_opts_default (&so);
+  so.max_steps = 400000;
+  so.pct_depth = depth;
+  so.pct_steps = 40 * the_case.n;
+  if (replay)
+    {
+      static uint8_t buf[1 << 16];
+      int n = strcmp (replay, "-") ? vf_parse_schedule (replay, buf, 1 << 16) : 0;
+      vf_run_once (scenario, NULL, VF_REPLAY, 1, &so, buf, n, 60, on_run, &a);
+    }
+  else if (dfs >= 0)
+    {
+      vf_explore_opts eo;
+      vf_explore_opts_default (&eo);
+      eo.bound = dfs; eo.free_switch = free_switch; eo.max_runs = max_runs; eo.sched = so; eo.timeout_s = 60;
+      vf_explore (scenario, NULL, &eo, on_run, &a, &st);
+    }
+  else
+    {
+      for (k = 0; k < nrandom; k++)
+        vf_run_once (scenario, NULL, VF_RANDOM, seed * 1000003UL + (unsigned long)k, &so, NULL, 0, 60, on_run, &a);
+      for (k = 0; k < npct; k++)
+        vf_run_once (scenario, NULL, VF_PCT, seed * 7000003UL + (unsigned long)k, &so, NULL, 0, 60, on_run, &a);
+    }
+  fflush (stdout);
+  fprintf (stderr, "c07_cluster_shim: runs=%ld bad=%ld max_decisions=%ld truncated=%ld\n", a.runs, a.bad,
+           st.max_decisions, st.truncated);
+  return 0;
+}
+#endif
